@@ -293,7 +293,7 @@ class Unit:
         return header, body
 
     def lift_closure(self, file, path, prefix, name, sig, spec="", subs=None, rules_=DEFAULT_FN_RULES, wrap=None, props=None,
-                     attrs="", post_subs=None, nth=None, of=None, block=False, fn_kw="fn", brace_at=None):
+                     attrs="", post_subs=None, nth=None, of=None, block=False, fn_kw="fn", brace_at=None, loops=None):
         """R-closure: the closure literal starting with `prefix` inside fn `path` is lifted to a function `name` with signature
         `sig` (its parameters followed by its captured variables); the closure BODY text is copied unchanged.
         block=True (R-block): `prefix` is a token run ending with the `{` of a block expression (e.g. `s.spawn::<()>(async {`); the
@@ -333,6 +333,8 @@ class Unit:
             if n:
                 fired.append((r, n))
         body = self._apply_subs(body, subs, fired)
+        if loops:
+            body = self._weave_loops(body, loops, fired)
         body = self._apply_subs(body, post_subs, fired)
         spec_txt = spec.strip("\n")
         pieces = []
